@@ -160,6 +160,7 @@ var deviations = []func(s *scCfg){
 	func(s *scCfg) { s.Rev = 5 },
 	func(s *scCfg) { s.Rev = 6 },
 	func(s *scCfg) { s.Rev = 7 },
+	func(s *scCfg) { s.Rev = 8 },
 	func(s *scCfg) { s.PAttr = 2; s.Resp = 0 },
 	func(s *scCfg) { s.PAttr = 2; s.Resp = 1 },
 	func(s *scCfg) { s.PAttr = 2; s.TI = 0 },
@@ -231,7 +232,7 @@ func randSc(r *Rng) scCfg {
 			s.Payload = Pick(r, []int{1, 2, 2, 3})
 		case 8:
 			if r.Chance(1, 4) {
-				s.Rev = 3 + r.Intn(5)
+				s.Rev = 3 + r.Intn(6)
 			} else if r.Chance(1, 3) {
 				s.Sig = r.Intn(2)
 			} else {
